@@ -28,6 +28,7 @@ type gspec struct {
 	Names  []string   `json:"names"`
 	Deps   [][]string `json:"deps"`
 	Dup    bool       `json:"dup,omitempty"`
+	Vars   bool       `json:"vars,omitempty"` // a variable with the same name as each task is declared above the tasks
 	Family string     `json:"family,omitempty"`
 	// exploration parameters
 	ReqMaxLen  int  `json:"req_max_len"`
@@ -76,6 +77,23 @@ func c03Specs(tier string) []gspec {
 		}
 		g := maskGraph(2, m)
 		g.ReqMaxLen, g.ReqRepeat, g.OrderBound, g.ReqUndef, g.Family = 2, false, -1, true, "undefined-request"
+		out = append(out, g)
+	}
+	// variables named like the tasks (and like the undefined name)
+	for n := 1; n <= 3; n++ {
+		for m := uint32(0); m < 1<<(n*n); m++ {
+			if n == 3 && m%7 != 0 {
+				continue // every 7th three-vertex graph
+			}
+			g := maskGraph(n, m)
+			g.Vars, g.ReqMaxLen, g.ReqRepeat, g.OrderBound, g.Family = true, 2, false, 1, "variable-named-like-task"
+			out = append(out, g)
+		}
+	}
+	for m := uint32(0); m < 16; m++ {
+		g := maskGraph(2, m)
+		g.Deps[1] = append(g.Deps[1], "zz")
+		g.Vars, g.ReqMaxLen, g.OrderBound, g.Family = true, 2, -1, "undefined-dep-named-like-variable"
 		out = append(out, g)
 	}
 	// duplicate definitions
@@ -135,6 +153,14 @@ func (g gspec) text() string {
 	def := func(i int) {
 		n := g.Names[i]
 		fmt.Fprintf(&sb, "task %s(%s) {\n    echo %s >> \"$VLOG\"\n    test ! -e \"$VCTL/fail_%s\"\n}\n\n", n, strings.Join(g.Deps[i], ", "), n, n)
+	}
+	if g.Vars {
+		var vb strings.Builder
+		for _, n := range g.Names {
+			fmt.Fprintf(&vb, "%s := \"site/*.md\"\n", n)
+		}
+		vb.WriteString("zz := \"x\"\n\n")
+		sb.WriteString(vb.String())
 	}
 	for i := range g.Names {
 		def(i)
@@ -360,7 +386,7 @@ func runC03Case(sb *proj.Sandbox, g gspec, text string, req []string, failing st
 			var m map[string]any
 			json.Unmarshal(pool.MustJSON(cs), &m)
 			res.Viol = append(res.Viol, ev.Violation{Engine: "cfgmc-c03",
-				Key:   fmt.Sprintf("deps=%v dup=%v request=%v order=%v failing=%s", g.Deps, g.Dup, req, c.Taken, failing),
+				Key:   fmt.Sprintf("deps=%v dup=%v vars=%v request=%v order=%v failing=%s", g.Deps, g.Dup, g.Vars, req, c.Taken, failing),
 				Class: cls, What: fmt.Sprintf("graph %s request %v iteration-order choices %v: %s", depString(g), req, c.Taken, what), Case: m})
 		}
 	}
